@@ -34,7 +34,7 @@ INVS_SAFETY = ["ResultAuthentic", "CacheAuthentic", "ConfigAuthentic", "HonestLi
 def make(name, clients, client_of, lookups, h, prefix, size_a, size_b, served, max_grow=0, serve_tls=("A",), max_switch=0, coarse=True,
          max_faults=0, fault_kinds=(), tile_detail=True, partial_gone=False, max_restarts=0, init_cfgs=(None,), skip=(),
          invariants=INVS_SAFETY, properties=("ConfigChain", "MemChain"), emit=True, view=False, extra_invs=(), kind="behaviour", emit_cond="TRUE",
-         scenario=None, init_disk_full=False):
+         scenario=None, init_disk_full=False, max_env=0):
     """Returns (module_text, cfg_text)."""
     mod = ["---- MODULE %s ----" % name, "EXTENDS SumdbClient, Json",
            "MC_ClientOf == " + tla_fun(client_of, lambda v: '"%s"' % v),
@@ -56,6 +56,9 @@ def make(name, clients, client_of, lookups, h, prefix, size_a, size_b, served, m
            # a compare-and-swap of the configuration that lost, after which the file holds a larger head than the loser wanted to write
            'CasLost == \\E i \\in 1..Len(hist) : hist[i].op = "WriteConfig" /\\ hist[i].conflict /\\',
            '    \\E j \\in (i + 1)..Len(hist) : hist[j].op = "ReadConfig" /\\ hist[j].t = hist[i].t /\\ hist[j].file = "latest" /\\ hist[j].head.n > hist[i].new.n',
+           # the same thread loses its compare-and-swap three times (to writers outside the clients of the model)
+           'CasLostThrice == \\E t \\in Threads : Cardinality({i \\in 1..Len(hist) : hist[i].op = "WriteConfig" /\\ hist[i].conflict /\\ hist[i].t = t}) >= 3',
+           'ConflictCount == Cardinality({i \\in 1..Len(hist) : hist[i].op = "WriteConfig" /\\ hist[i].conflict})',
            'ScenView == <<View, %s>>' % (scenario or "TRUE"),
            'Emit == (AllDone /\\ %s) => PrintT(ToJson([w |-> "client", k |-> "%s",' % (emit_cond, kind),
            '    in |-> [h |-> H, prefix |-> Prefix, sizeA |-> SizeA, sizeB |-> SizeB, served |-> InitServed, cfg0 |-> hist[1].head,',
@@ -67,7 +70,7 @@ def make(name, clients, client_of, lookups, h, prefix, size_a, size_b, served, m
            "  Clients = " + tla_set(clients),
            "  Threads = " + tla_set(list(client_of)),
            "  H = %d" % h, "  Prefix = %d" % prefix, "  SizeA = %d" % size_a, "  SizeB = %d" % size_b,
-           "  MaxGrow = %d" % max_grow, "  ServeTls = " + tla_set(serve_tls), "  MaxSwitch = %d" % max_switch, "  Coarse = %s" % ("TRUE" if coarse else "FALSE"), "  MaxFaults = %d" % max_faults,
+           "  MaxGrow = %d" % max_grow, "  ServeTls = " + tla_set(serve_tls), "  MaxSwitch = %d" % max_switch, "  MaxEnv = %d" % max_env, "  Coarse = %s" % ("TRUE" if coarse else "FALSE"), "  MaxFaults = %d" % max_faults,
            "  FaultKinds = " + tla_set(fault_kinds), "  TileDetail = %s" % ("TRUE" if tile_detail else "FALSE"), "  PartialMayBeGone = %s" % ("TRUE" if partial_gone else "FALSE"), "  InitDiskFull = %s" % ("TRUE" if init_disk_full else "FALSE"),
            "  MaxRestarts = %d" % max_restarts, "  Skip = " + tla_set(skip, quote=False),
            "  ClientOf <- MC_ClientOf", "  Lookups <- MC_Lookups", "  InitServed <- MC_InitServed", "  InitCfgs <- MC_InitCfgs",
@@ -228,6 +231,15 @@ def c13_scenario_configs(tier):
     return cfgs
 
 
+def c13_env_configs(tier):
+    """Outside writers win the swap three times while the stored head is still inside the common prefix of a split view; then the
+    client restarts and the server shows the other view: the head the client accepted before the restart must have reached the file."""
+    return [dict(clients=["c1"], client_of={"t1": "c1"}, lookups={"t1": [0, 1]}, h=2, prefix=3, size_a=5, size_b=5,
+                 served={"A": 5, "B": 5}, serve_tls=("A", "B"), max_switch=1, max_restarts=1, max_env=3, coarse=True, tile_detail=True,
+                 kind="behaviour", scenario="ConflictCount",
+                 emit_cond='CasLostThrice /\\ (\\E i \\in 1..Len(hist) : hist[i].op = "Restart")')]
+
+
 INVS_C14 = ["ResultAuthentic", "HonestLive", "ConfigAuthentic", "FetchExclusive", "SkipSilentState", "QuiescentConfig", "CacheAuthentic"]
 
 
@@ -283,6 +295,15 @@ def c14_scenario_configs(tier):
         # two clients sharing the configuration file: a compare-and-swap that loses against a larger head, a smaller one, an equal one
         c14_config({"t1": "c1", "t2": "c2"}, {"t1": [0], "t2": [1]}, 3, 2, max_grow=1, scenario="CasLost", emit_cond="CasLost"),
         c14_config({"t1": "c1", "t2": "c2"}, {"t1": [0], "t2": [1, 2]}, 4, 2, max_grow=2, scenario="CasLost", emit_cond="CasLost"),
+    ] + env_writer_configs(tier)
+
+
+def env_writer_configs(tier):
+    """Other honest processes (outside the model's clients) win the compare-and-swap of the configuration three times in a row
+    while a thread stands between its read and its swap (EnvStore): the lookup still succeeds and the file ends at its head."""
+    return [
+        c14_config({"t1": "c1"}, {"t1": [0]}, 5, 5, max_grow=0, init_cfgs=[("A", 1)], max_env=3, scenario="ConflictCount", emit_cond="CasLostThrice"),
+        c14_config({"t1": "c1", "t2": "c1"}, {"t1": [0], "t2": [1]}, 5, 5, max_grow=0, init_cfgs=[None], max_env=3, scenario="ConflictCount", emit_cond="CasLostThrice"),
     ]
 
 
